@@ -169,8 +169,15 @@ package migrate
 //@   ensures positions: (forall i int :: 0 <= i && i < len(all) && !old(GvcIsCk(all[i])) ==> 0 <= old(GvcCntM(all, i)) && old(GvcCntM(all, i)) < len(r))
 //@   ensures fresh: GvcFresh(r)
 //@   ensures nonnil-kept: (forall i int :: 0 <= i && i < len(all) ==> old(all[i] != nil)) ==> (forall p int :: 0 <= p && p < len(r) ==> r[p] != nil)
+//@   ensures onto: (forall p int :: 0 <= p && p < len(r) ==> (exists i int :: 0 <= i && i < len(all) && !old(GvcIsCk(all[i])) && old(GvcCntM(all, i)) == p && r[p] == old[File](all[i])))
+//@   ensures sorted-kept: (forall i int, j int :: 0 <= i && i < j && j < len(all) ==> old(all[i].Version() < all[j].Version())) ==>
+//@           (forall p int, q int :: 0 <= p && p < q && q < len(r) ==> r[p].Version() < r[q].Version())
 //@   loop 1 localwrites
 //@   loop 1 invariant (forall i int :: 0 <= i && i < len(all) ==> old(all[i] != nil)) ==> (forall p int :: 0 <= p && p < len(files) ==> files[p] != nil)
+//@   loop 1 invariant (forall p int :: 0 <= p && p < len(files) ==> (exists i int :: 0 <= i && i < loopk && !old(GvcIsCk(all[i])) && old(GvcCntM(all, i)) == p && files[p] == old[File](all[i])))
+//@   loop 1 invariant (forall i int, j int :: 0 <= i && i < j && j < len(all) ==> old(all[i].Version() < all[j].Version())) ==>
+//@           (forall p int, q int :: 0 <= p && p < q && q < len(files) ==> files[p].Version() < files[q].Version()) &&
+//@           (forall p int, j int :: 0 <= p && p < len(files) && loopk <= j && j < len(all) ==> files[p].Version() < old(all[j].Version()))
 //@   loop 1 invariant 0 <= loopk && loopk <= len(all) && len(files) == old(GvcCntM(all, loopk)) && GvcFresh(files)
 //@   loop 1 invariant (forall i int :: 0 <= i && i < loopk && !old(GvcIsCk(all[i])) ==> 0 <= old(GvcCntM(all, i)) && old(GvcCntM(all, i)) < len(files))
 //@   loop 1 invariant (forall i int :: 0 <= i && i < loopk && !old(GvcIsCk(all[i])) ==> files[old(GvcCntM(all, i))] == old[File](all[i]))
